@@ -188,7 +188,9 @@ def formulas(ctx, prog, rule):
     for bi, si, cls, payload in tf.ret_assignments():
         if cls == "ok":
             v = strip(Rt.rvalue(payload))[2][0]
-            oks.append(poly(v) if strip(v)[0] in ("binop", "call") else leaf_name(v))
+            # one `Ok(value)` fed by a match (a phi of the arms) is the same as one Ok per arm
+            for a in (strip(v)[1] if strip(v)[0] == "phi" else (v,)):
+                oks.append(poly(a) if strip(a)[0] in ("binop", "call") else leaf_name(a))
     want_si = {tuple(sorted(("arg1.ScaledInteger.0", "arg2.ScaledInteger.scale"))): 1.0, ("arg2.ScaledInteger.offset",): 1.0}
     ok = want_si in oks and "arg1.Single.0" in oks and "arg1.Double.0" in oks and "arg1.Integer.0" in oks and len(oks) == 4
     ctx.ob(rule, "formula/RecordValue::to_f64", ok, "to_f64 results %s (must be value, value, raw*scale+offset, value)" % oks)
